@@ -1,4 +1,50 @@
-(* C01 - placeholder until the lemmas land *)
-From Coq Require Import List.
-Theorem C01_placeholder : True. Proof. exact I. Qed.
-Print Assumptions C01_placeholder.
+(* C01 - a configuration's identifier is a pure function of its content.
+   Statements only; every proof is `exact <lemma>`.  H is an arbitrary hash
+   function; `look` is an arbitrary state of the identifier cache.            *)
+From Coq Require Import ZArith NArith List Bool Permutation.
+From XV Require Import core.Value model.Hash model.Cache model.Edits
+  proofs.Hash_lemmas proofs.Neutral_lemmas proofs.Cache_lemmas.
+Import ListNotations.
+
+(* keyword order: the stored values of any node in another order (distinct
+   names) leave the identifier of every node of the graph unchanged            *)
+Theorem C01_keyword_order : forall H cs h look n x f',
+  nth_error h n = Some x -> Permutation (n_fields x) f' -> NoDup (map fst (n_fields x)) ->
+  forall fuel m, raw_ident H cs h look fuel m = raw_ident H cs (upd_nth h n (with_fields x f')) look fuel m.
+Proof. exact kwarg_order_neutral. Qed.
+Print Assumptions C01_keyword_order.
+
+(* the identifier reads a graph only through signatures and meta flags: it is a
+   function of the content (not of object identity, construction order, ...)    *)
+Theorem C01_function_of_content : forall H cs cs' h h' look,
+  meta_eq h h' -> (forall n, nsig cs h n = nsig cs' h' n) ->
+  forall fuel n, raw_ident H cs h look fuel n = raw_ident H cs' h' look fuel n.
+Proof. exact ident_sig_ext. Qed.
+Print Assumptions C01_function_of_content.
+
+(* acyclic graphs: the identifier computed for a node in any context (as a nested
+   value of any chain of enclosing configurations, with any cache state) is the one
+   computed at top level - so reusing it, whatever was requested before, is sound  *)
+Theorem C01_acyclic_context_independent : forall H cs h look, ordered h ->
+  forall fuel st n, above (S n) st ->
+  hnode H cs h look (S fuel) st n = hnode H cs h look (S fuel) [] n.
+Proof. exact hnode_ctx_independent. Qed.
+Print Assumptions C01_acyclic_context_independent.
+
+Theorem C01_acyclic_no_cycle_reference : forall H cs h look, ordered h ->
+  forall fuel k st st' v, below k v -> above k st -> above k st' ->
+  hv H cs h look fuel st v = hv H cs h look fuel st' v /\
+  (forall b e, hv H cs h look fuel st v = Ok (b, e) -> e = 0).
+Proof. exact hv_ctx_independent. Qed.
+Print Assumptions C01_acyclic_no_cycle_reference.
+
+(* record of defect #1 (repaired by a fix: commit): on the machine of the pinned
+   commit, whose cache test never sees the loop flag, the identifier answered for
+   node 1 of a sealed 3-cycle depends on what was requested before               *)
+Theorem C01_cache_prefix_refuted :
+  exists ops1 ops2 d1 d2,
+    nth 3 (cyc_run false ops1) ASealed = ADigest d1 /\
+    nth 1 (cyc_run false ops2) ASealed = ADigest d2 /\
+    nth_error ops1 3 = Some (OpRaw 1) /\ nth_error ops2 1 = Some (OpRaw 1) /\ d1 <> d2.
+Proof. exact cache_prefix_order_dependent. Qed.
+Print Assumptions C01_cache_prefix_refuted.
